@@ -29,7 +29,9 @@ pub struct Workload {
     pub free_mode: u8,
     /// placement of the allocator's mmaps, a repeating pattern of interposer hint modes:
     /// 0 kernel default (usually adjacent), 1 directly above, 2 directly below the previous
-    /// mapping, 3 non-contiguous (8 MiB hole) - what foreign mappings next to a heap cause
+    /// mapping, 3 non-contiguous (8 MiB hole) - what foreign mappings next to a heap cause, 4 directly
+    /// above what is still mapped of the run the previous mapping belongs to (after a trim the new
+    /// mapping lands exactly at the end of the top segment: the "extend the top segment" path)
     #[serde(default)]
     pub placement: Vec<u8>,
     /// once all blocks of the round are allocated: realloc block (index % n) to this size (0 is
@@ -318,6 +320,7 @@ pub fn check_workload(ctx: &Ctx, w: &Workload) -> CaseResult {
     rep.class_if(st.rounds >= 10_000, "10k+rounds");
     rep.class_if(w.placement.contains(&3), "non-contiguous-segments");
     rep.class_if(w.placement.contains(&1) || w.placement.contains(&2), "steered-adjacent-segments");
+    rep.class_if(w.placement.contains(&4), "mappings-steered-to-the-end-of-the-trimmed-run");
     let milli = (st.max_ratio_to_round_total * 1000.0) as u64;
     MAX_RATIO_MILLI.with(|m| {
         if milli > m.get() {
@@ -350,7 +353,8 @@ pub fn workload_strategy() -> impl Strategy<Value = Workload> {
     let placement = prop_oneof![
         3 => Just(vec![]),
         3 => Just(vec![3u8]),
-        2 => prop::collection::vec(0u8..4, 1..6),
+        3 => Just(vec![4u8]),
+        2 => prop::collection::vec(0u8..5, 1..6),
     ];
     // resizes are drawn relative to the block's size: small and large shrinks and growths
     let rel = prop_oneof![
